@@ -448,7 +448,10 @@ def _expr_chain(text):
                 cl = _closure(arg)
                 if not cl:
                     raise ExtractError("R16: filter without closure")
-                body.append("if { let %s = &%s; %s } {" % (cl[0], e, cl[1]))
+                if cl[0].startswith("&"):
+                    body.append("if { let %s = %s; %s } {" % (cl[0][1:].strip(), e, cl[1]))
+                else:
+                    body.append("if { let %s = &%s; %s } {" % (cl[0], e, cl[1]))
                 opens += 1
             elif name == "flat_map":
                 path = " ".join(arg.split())
@@ -482,9 +485,15 @@ def _expr_chain(text):
                 upd = "%s = { let %s = %s; let %s = %s; %s };" % (acc, params[0], acc, params[1], e, cl[1])
             else:
                 upd = "%s = %s(%s, %s);" % (acc, " ".join(fn.split()), acc, e)
-        new = "{ " + init + " " + " ".join(head) + " " + " ".join(body) + " " + upd + " " + "}" * opens + " " + acc + " }"
         old = text[start:end]
-        text = text[:start] + new + _blank_lines(old) + text[end:]
+        nl = old.count("\n")
+        if nl >= 2:
+            # enough source lines: put the accumulator update on a line of its own so that proof hints can be anchored around it
+            new = "{ " + init + " " + " ".join(head) + " " + " ".join(body) + "\n" + upd + "\n" + "}" * opens + " " + acc + " }" + "\n" * (nl - 2)
+            text = text[:start] + new + text[end:]
+        else:
+            new = "{ " + init + " " + " ".join(head) + " " + " ".join(body) + " " + upd + " " + "}" * opens + " " + acc + " }"
+            text = text[:start] + new + _blank_lines(old) + text[end:]
         pos = start + len(new)
 
 
@@ -510,6 +519,7 @@ GROUPS = {
         ("R4", _compound, None),
         ("R3", r"\b(?:std::)?f64::consts::PI\b", "F::pi()"),
         ("R3", r"\bstd::f64::MIN\b", "F::min_value()"),
+        ("R3", r"\b(?:std::)?f64::EPSILON\b", "F::epsilon()"),
         ("R3", r"\bf64::(\w+)\s*\(", r"F::\1("),
         ("R1", r"\bPI\b", "F::pi()"),
         ("R2", r"\(([^()]*(?:\([^()]*\)[^()]*)*)\)\.(ceil|floor)\(\)\s+as\s+i64", r"F::\2_i64(\1)"),
